@@ -253,6 +253,9 @@ def exec_for(it, node):
             src.items[0].py == 'enumerate':
         start = src.items[2]
         src = src.items[1]
+    if isinstance(src, VRef) and isinstance(ctx.cell(src), ObjCell):
+        # iterable repository object: its own __iter__ (inlined)
+        src = it.call(it.getattr(src, '__iter__'), [], {})
     items = models.iter_concrete(it, src)
     if items is not None:
         broke = False
